@@ -140,7 +140,7 @@ func (b *builder05) hook() *specs.Hook {
 func (b *builder05) rdt() *specs.IntelRdt {
 	r := &specs.IntelRdt{}
 	if b.on[oRClos] {
-		r.ClosID = b.pick("clos0", "a.b", "...", "x y", "-")
+		r.ClosID = b.pick("clos0", "a.b", "...", "x y", "-", "..a", "a\tb", "clös", "\\", " ", ".a.")
 	}
 	if b.on[oRL3] {
 		r.L3CacheSchema = "L3:0=ff"
@@ -169,7 +169,7 @@ func (b *builder05) edits(base int) specs.ContainerEdits {
 	if b.on[base+0] {
 		for i := 0; i < b.m; i++ {
 			b.seq++
-			e.Env = append(e.Env, fmt.Sprintf("VAR%d=%s", b.seq, b.pick("val", "", "a=b", " ")))
+			e.Env = append(e.Env, fmt.Sprintf("%s%d=%s", b.pick("VAR", "VAR", "v a r", "é", "1", "-"), b.seq, b.pick("val", "", "a=b", " ", "=", "line1\nline2")))
 		}
 	}
 	if b.on[base+1] {
@@ -198,8 +198,8 @@ func (b *builder05) edits(base int) specs.ContainerEdits {
 	return e
 }
 
-var validKinds05 = []string{"vendor.com/class", "v/c", "a-b.c_d/e-f_g", "Vendor0/Class9", "x.y/z"}
-var validNames05 = []string{"dev", "d", "a:b", "x.y-z_1", "D"}
+var validKinds05 = []string{"vendor.com/class", "v/c", "a-b.c_d/e-f_g", "Vendor0/Class9", "x.y/z", "ab/c0", "a_-.b/c--d", "V/C"}
+var validNames05 = []string{"dev", "d", "a:b", "x.y-z_1", "D", "0", "a:-_.b", "9:"}
 
 func (b *builder05) spec(nDev int) *specs.Spec {
 	s := &specs.Spec{Kind: b.pick(validKinds05...)}
@@ -351,22 +351,31 @@ func refreshRoute05(dir, path string) int {
 	return res
 }
 
-func writeRoute05(dir string, s *specs.Spec, name string) int {
-	var err error
-	p, _ := hx.Guard(func() {
-		cache, _ := cdi.NewCache(cdi.WithSpecDirs(dir), cdi.WithAutoRefresh(false))
-		err = cache.WriteSpec(s, name)
-	})
-	switch {
-	case p:
-		return obsPanicked
-	case err != nil:
-		return obsRejected
+// writeRoutes05 hands the same Spec value to one cache under several names, one after the other (a verdict kept from the
+// first call would show in the second).
+func writeRoutes05(dir string, s *specs.Spec, names ...string) []int {
+	var cache *cdi.Cache
+	if p, _ := hx.Guard(func() { cache, _ = cdi.NewCache(cdi.WithSpecDirs(dir), cdi.WithAutoRefresh(false)) }); p || cache == nil {
+		return []int{obsOdd, obsOdd}
 	}
-	if _, serr := os.Stat(filepath.Join(dir, name)); serr != nil {
-		return obsOdd
+	var out []int
+	for _, name := range names {
+		var err error
+		p, _ := hx.Guard(func() { err = cache.WriteSpec(s, name) })
+		switch {
+		case p:
+			out = append(out, obsPanicked)
+		case err != nil:
+			out = append(out, obsRejected)
+		default:
+			if _, serr := os.Stat(filepath.Join(dir, name)); serr != nil {
+				out = append(out, obsOdd)
+			} else {
+				out = append(out, obsAccepted)
+			}
+		}
 	}
-	return obsAccepted
+	return out
 }
 
 // parsedTerm05 runs cdi.ParseSpec and prints what it returned as `option spec`.
@@ -392,7 +401,9 @@ type gen05 struct {
 }
 
 // chunkLiterals rewrites every Coq string literal longer than 2000 bytes in a term as nested String.append
-// applications of short literals: coqc overflows its stack while interpreting a 256 KiB literal.
+// applications of short literals: coqc overflows its stack while interpreting a 256 KiB literal. Long runs of one
+// repeated unit of 1 to 4 bytes (one character) are written (rep_s "unit" n): interpreting 256 KiB of literal text
+// costs coqc some 20 s, the run a fraction of a second.
 func chunkLiterals(term string) string {
 	if len(term) < 2000 {
 		return term
@@ -423,27 +434,21 @@ func chunkLiterals(term string) string {
 			i = j + 1
 			continue
 		}
-		// pieces: short literals, and (rep_s "c" n) for runs of one repeated byte
+		// pieces: short literals, and (rep_s "unit" n) for runs of one repeated unit
 		var chunks []string
 		for len(body) > 0 {
-			if body[0] != '"' {
-				run := 1
-				for run < len(body) && body[run] == body[0] {
-					run++
-				}
-				if run >= 500 {
-					chunks = append(chunks, fmt.Sprintf("(rep_s \"%s\" %d%%N)", body[0:1], run))
-					body = body[run:]
-					continue
-				}
+			if unit, reps := runAt05(body); reps > 0 {
+				chunks = append(chunks, fmt.Sprintf("(rep_s \"%s\" %d%%N)", unit, reps))
+				body = body[len(unit)*reps:]
+				continue
 			}
 			n := 1500
 			if n > len(body) {
 				n = len(body)
 			}
 			// stop before a long run, and do not cut a doubled quote in two
-			for k := 1; k+500 <= n; k++ {
-				if body[k] != '"' && strings.Count(body[k:k+500], body[k:k+1]) == 500 {
+			for k := 1; k < n; k++ {
+				if _, reps := runAt05(body[k:]); reps > 0 {
 					n = k
 					break
 				}
@@ -462,6 +467,23 @@ func chunkLiterals(term string) string {
 		i = j + 1
 	}
 	return b.String()
+}
+
+// runAt05: body starts with at least 500 bytes made of one unit of 1..4 bytes (no quote in it) repeated
+func runAt05(body string) (string, int) {
+	for k := 1; k <= 4 && 2*k <= len(body); k++ {
+		if body[k:2*k] != body[:k] || strings.IndexByte(body[:k], '"') >= 0 {
+			continue
+		}
+		n := 2 * k
+		for n+k <= len(body) && body[n:n+k] == body[:k] {
+			n += k
+		}
+		if n >= 500 {
+			return body[:k], n / k
+		}
+	}
+	return "", 0
 }
 
 func obsList(obs []int) string {
@@ -585,7 +607,7 @@ func (g *gen05) addTyped(class string, info map[string]interface{}, s *specs.Spe
 	dir := filepath.Join(g.scratch, fmt.Sprintf("typed%05d", g.n))
 	_ = os.MkdirAll(dir, 0o755)
 	defer os.RemoveAll(dir)
-	obs := []int{writeRoute05(dir, s, "typed.json"), writeRoute05(dir, s, "typed.yaml")}
+	obs := writeRoutes05(dir, s, "typed.json", "typed.yaml")
 	desc := map[string]interface{}{"route": "Cache.WriteSpec", "spec": trunc05(string(specJSON(s)), 700),
 		"observed": map[string]string{"WriteSpec(.json)": obsNames05[obs[0]], "WriteSpec(.yaml)": obsNames05[obs[1]]}}
 	for k, x := range info {
@@ -631,7 +653,17 @@ func (g *gen05) defectBase(m int) *specs.Spec {
 // compact base for defect injection: three devices; the spec-level edits and every device's edits hold one env
 // entry plus m elements of the targeted list ("env", "nodes", "hooks", "mounts"), an intelRdt ("rdt") or
 // annotations ("annots"); only the optional fields a defect can touch are present
-func (g *gen05) compact(target string, m int) *specs.Spec {
+func (g *gen05) compact(target string, m int) *specs.Spec { return g.compactN(target, m, 3) }
+
+// fullN: every optional field present, nDev devices, lists of m elements
+func (g *gen05) fullN(m, nDev int) *specs.Spec {
+	b := &builder05{r: g.r, on: allOn05(), m: m}
+	s := b.spec(nDev)
+	s.Version = "1.0.0"
+	return s
+}
+
+func (g *gen05) compactN(target string, m, nDev int) *specs.Spec {
 	on := make([]bool, nOpt05)
 	on[oSpecEnv], on[oDevEnv] = true, true
 	switch target {
@@ -647,7 +679,7 @@ func (g *gen05) compact(target string, m int) *specs.Spec {
 		on[oSpecAnn], on[oDevAnn] = true, true
 	}
 	b := &builder05{r: g.r, on: on, m: m}
-	s := b.spec(3)
+	s := b.spec(nDev)
 	if target != "env" {
 		s.ContainerEdits.Env = s.ContainerEdits.Env[:1]
 		for i := range s.Devices {
@@ -683,6 +715,45 @@ func placeName(place int) string {
 	return []string{"first device", "middle device", "last device"}[place]
 }
 
+// placeIn: the device index meant by a place (-1 spec level, 0 first, 1 middle, 2 last) among nDev devices
+func placeIn(place, nDev int) int {
+	switch place {
+	case -1:
+		return -1
+	case 0:
+		return 0
+	case 1:
+		return nDev / 2
+	}
+	return nDev - 1
+}
+
+// surroundings05 draws what a defect stands in: the number of devices (1, 2, 3, more: the first is then also the
+// last, ...), the length of the lists (1, 2, 3, 5) and whether the other optional members and lists are present too
+// (a validator which stops after the first kind of list it finds non-empty, or looks only at lists of a certain
+// length, shows only then).
+func (g *gen05) surroundings05(place int) (nDev, m int, full bool) {
+	switch place {
+	case -1:
+		nDev = hx.Pick(g.r, []int{1, 2, 3, 5})
+	case 1:
+		nDev = hx.Pick(g.r, []int{3, 3, 4, 6})
+	default:
+		nDev = hx.Pick(g.r, []int{1, 2, 3, 3, 6})
+	}
+	m = hx.Pick(g.r, []int{1, 2, 3, 3, 5})
+	full = g.r.Chance(0.25)
+	if full { // everything present: keep the document small (the judge evaluates some 25 ms per record)
+		if nDev > 3 {
+			nDev = 3
+		}
+		if m > 2 {
+			m = 2
+		}
+	}
+	return nDev, m, full
+}
+
 type editDefect struct {
 	kind   string
 	target string
@@ -695,10 +766,10 @@ var editDefects05 = []editDefect{
 	}},
 	{"empty device node path", "nodes", func(g *gen05, e *specs.ContainerEdits, j int) { e.DeviceNodes[j].Path = "" }},
 	{"bad device node type", "nodes", func(g *gen05, e *specs.ContainerEdits, j int) {
-		e.DeviceNodes[j].Type = hx.Pick(g.r, []string{"x", "bb", "B", "block", " ", "char", "C"})
+		e.DeviceNodes[j].Type = hx.Pick(g.r, []string{"x", "bb", "B", "block", " ", "char", "C", "\u0162", "b\n", "c ", "\xe2"})
 	}},
 	{"bad device node permissions", "nodes", func(g *gen05, e *specs.ContainerEdits, j int) {
-		e.DeviceNodes[j].Permissions = hx.Pick(g.r, []string{"rwx", "R", "rw ", "mrwz", "é", "r,w", "-"})
+		e.DeviceNodes[j].Permissions = hx.Pick(g.r, []string{"rwx", "R", "rw ", "mrwz", "é", "r,w", "-", "\u0172", "r\u0177", "\u016dw", "r\xffw", "\xf2", "rw\n"})
 	}},
 	{"unknown hook stage", "hooks", func(g *gen05, e *specs.ContainerEdits, j int) {
 		e.Hooks[j].HookName = hx.Pick(g.r, []string{"", "preStart", "createruntime", "poststart ", "hook", "prestop", "PRESTART"})
@@ -721,10 +792,13 @@ var editDefects05 = []editDefect{
 var badClosIDs05 = []string{".", "..", "a/b", "/", "a\nb", "\n", strings.Repeat("c", 4096), strings.Repeat("c", 5000)}
 var badVersions05 = []string{"0.9.0", "2.0.0", "", "1.0", "1", "vv1.0.0", "1.0.0 ", "0.3.1", "1.0.0-rc1", "1.0.0+x", "junk", "V1.0.0", "01.0.0"}
 var badKinds05 = []string{"vendor", "/class", "vendor/", "", "/", "1vendor/class", "vendor./class", "vendor/cl ass", "vendor/class/", "vendor/-class",
-	"ven dor/class", "vendor/class_", "vendor.com/class/extra", "-vendor/class", "vendor/1class", "vénd/class", "vendor/cläss", "vendor/class\n", "_/c", "v/_"}
-var badDevNames05 = []string{"", "-dev", "dev-", "de v", "dev/0", "dev=0", "dév", ".", "_dev", "dev.", "dev:", ":dev", "d\n", " ", "dev,0"}
+	"ven dor/class", "vendor/class_", "vendor.com/class/extra", "-vendor/class", "vendor/1class", "vénd/class", "vendor/cläss", "vendor/class\n", "_/c", "v/_",
+	"v-/c", "v/c-", "v./c", "v/c:", "v:/c", "0/c", "v/0", "ven\xffdor/class", "vendor/cl\u0161ss", "vendor /class", " vendor/class", "vendor//class"}
+var badDevNames05 = []string{"", "-dev", "dev-", "de v", "dev/0", "dev=0", "dév", ".", "_dev", "dev.", "dev:", ":dev", "d\n", " ", "dev,0",
+	"d-", "-d", "d:", "d\xffv", "d\u012dv", "dev ", " dev", "-", ":"}
 var badAnnotKeys05 = []string{"", "-a", "a-", "a/b/c", "/name", "prefix_/name", "a b", strings.Repeat("n", 64), strings.Repeat("p", 254) + "/n",
-	"example..com/n", ".com/n", "com./n", "a/", "ünï", "-x.com/n", "x-.com/n", "example.com/-n", "example.com/" + strings.Repeat("n", 64), "a/b/", "!", "zz zz"}
+	"example..com/n", ".com/n", "com./n", "a/", "ünï", "-x.com/n", "x-.com/n", "example.com/-n", "example.com/" + strings.Repeat("n", 64), "a/b/", "!", "zz zz",
+	"a\xffb", "ex\u0131mple.com/n", "Example_.com/n", "example.com/n\n", " a", "a-/n", "a.-b/n", "a//n", "EXAMPLE.COM/-N"}
 
 // some picks n distinct elements (all of them in the thorough tier)
 func some05(g *gen05, tier string, xs []string, n int) []string {
@@ -741,27 +815,48 @@ func some05(g *gen05, tier string, xs []string, n int) []string {
 
 func (g *gen05) defects(tier string) {
 	places := []int{-1, 0, 1, 2}
-	const m = 3
-	elems := []int{0, m - 1}
-	if tier == "thorough" {
-		elems = []int{0, 1, m - 1}
-	}
-	// edit-level defects: every place x first/last element
+	// edit-level defects: every place x first/last element, in varying surroundings
 	for _, d := range editDefects05 {
 		for _, place := range places {
-			for _, j := range elems {
-				s := g.compact(d.target, m)
-				d.apply(g, editsAt(s, place), j)
-				g.addSpec("defect/"+d.kind, map[string]interface{}{"defect": d.kind, "place": placeName(place), "element": j, "of": m}, s, true)
+			for _, last := range []bool{false, true} {
+				nDev, m, full := g.surroundings05(place)
+				if last && m == 1 {
+					m = 2
+					if !full {
+						m = hx.Pick(g.r, []int{2, 3, 5})
+					}
+				}
+				j := 0
+				if last {
+					j = m - 1
+				}
+				if (tier == "thorough" || g.r.Chance(0.15)) && m >= 3 {
+					j = 1 + g.r.Intn(m-2)
+				}
+				var s *specs.Spec
+				if full {
+					s = g.fullN(m, nDev)
+				} else {
+					s = g.compactN(d.target, m, nDev)
+				}
+				dev := placeIn(place, nDev)
+				d.apply(g, editsAt(s, dev), j)
+				g.addSpec("defect/"+d.kind, map[string]interface{}{"defect": d.kind, "place": placeName(place), "device": dev, "devices": nDev,
+					"element": j, "of": m, "all optional members present": full}, s, true)
 			}
 		}
 	}
 	// RDT class id
 	for _, place := range places {
 		for _, id := range some05(g, tier, badClosIDs05, 2) {
-			s := g.compact("rdt", 1)
-			editsAt(s, place).IntelRdt.ClosID = id
-			g.addSpec("defect/bad RDT class id", map[string]interface{}{"defect": "bad RDT class id", "place": placeName(place), "closID": hx.JS(trunc05(id, 40))}, s, true)
+			nDev, m, full := g.surroundings05(place)
+			s := g.compactN("rdt", 1, nDev)
+			if full {
+				s = g.fullN(m, nDev)
+			}
+			editsAt(s, placeIn(place, nDev)).IntelRdt.ClosID = id
+			g.addSpec("defect/bad RDT class id", map[string]interface{}{"defect": "bad RDT class id", "place": placeName(place), "devices": nDev,
+				"all optional members present": full, "closID": hx.JS(trunc05(id, 40))}, s, true)
 		}
 	}
 	// version not released
@@ -840,36 +935,56 @@ func (g *gen05) defects(tier string) {
 		g.addSpec("defect/no devices", map[string]interface{}{"defect": "no devices", "nil": devs == nil}, s, true)
 	}
 	// duplicate names, every pair of positions
-	for _, pr := range [][2]int{{0, 1}, {0, 2}, {1, 2}} {
+	for _, pr := range [][2]int{{0, 1}, {0, 2}, {1, 2}, {0, 8}, {3, 4}, {7, 8}} {
 		s := g.compact("env", 1)
+		if pr[1] > 2 {
+			s = g.compactN("env", 1, 9)
+		}
 		s.Devices[pr[1]].Name = s.Devices[pr[0]].Name
 		g.addSpec("defect/duplicate device name", map[string]interface{}{"defect": "duplicate device name", "devices": pr}, s, true)
 	}
 	// bad device name / empty edits / annotations, at every device
 	for k := 0; k < 3; k++ {
 		for _, n := range some05(g, tier, badDevNames05, 3) {
-			s := g.compact("env", 1)
-			s.Devices[k].Name = n
-			g.addSpec("defect/bad device name", map[string]interface{}{"defect": "bad device name", "place": placeName(k), "name": hx.JS(n)}, s, true)
+			nDev, m, full := g.surroundings05(k)
+			s := g.compactN("env", 1, nDev)
+			if full {
+				s = g.fullN(m, nDev)
+			}
+			s.Devices[placeIn(k, nDev)].Name = n
+			g.addSpec("defect/bad device name", map[string]interface{}{"defect": "bad device name", "place": placeName(k), "devices": nDev,
+				"all optional members present": full, "name": hx.JS(n)}, s, true)
 		}
 		for variant := 0; variant < 2; variant++ {
-			s := g.compact("env", 1)
-			s.Devices[k].ContainerEdits = specs.ContainerEdits{}
-			if variant == 1 {
-				s.Devices[k].ContainerEdits = specs.ContainerEdits{Env: []string{}, AdditionalGIDs: []uint32{}, DeviceNodes: []*specs.DeviceNode{}}
+			nDev, m, full := g.surroundings05(k)
+			s := g.compactN("env", 1, nDev)
+			if full {
+				s = g.fullN(m, nDev)
 			}
-			g.addSpec("defect/empty device edits", map[string]interface{}{"defect": "empty device edits", "place": placeName(k), "empty-but-non-nil lists": variant == 1}, s, true)
+			dev := placeIn(k, nDev)
+			s.Devices[dev].ContainerEdits = specs.ContainerEdits{}
+			if variant == 1 {
+				s.Devices[dev].ContainerEdits = specs.ContainerEdits{Env: []string{}, AdditionalGIDs: []uint32{}, DeviceNodes: []*specs.DeviceNode{},
+					Hooks: []*specs.Hook{}, Mounts: []*specs.Mount{}}
+			}
+			g.addSpec("defect/empty device edits", map[string]interface{}{"defect": "empty device edits", "place": placeName(k), "devices": nDev,
+				"all optional members present": full, "empty-but-non-nil lists": variant == 1}, s, true)
 		}
 	}
 	for _, place := range places {
 		for _, k := range some05(g, tier, badAnnotKeys05, 3) {
-			s := g.compact("annots", 3)
-			if place < 0 {
+			nDev, m, full := g.surroundings05(place)
+			s := g.compactN("annots", m, nDev)
+			if full {
+				s = g.fullN(m, nDev)
+			}
+			if dev := placeIn(place, nDev); dev < 0 {
 				s.Annotations[k] = "v"
 			} else {
-				s.Devices[place].Annotations[k] = "v"
+				s.Devices[dev].Annotations[k] = "v"
 			}
-			g.addSpec("defect/bad annotation key", map[string]interface{}{"defect": "bad annotation key", "place": placeName(place), "key": hx.JS(trunc05(k, 80))}, s, true)
+			g.addSpec("defect/bad annotation key", map[string]interface{}{"defect": "bad annotation key", "place": placeName(place), "devices": nDev,
+				"all optional members present": full, "key": hx.JS(trunc05(k, 80))}, s, true)
 		}
 	}
 	// annotations over the size limit (and exactly at it)
@@ -922,6 +1037,24 @@ func (g *gen05) defects(tier string) {
 			}
 			g.addSpec(kind, map[string]interface{}{"defect": "annotations size", "place": placeName(place), "total bytes": 262144 + over, "characters": n + pad + used, "bytes per character": len(ch)}, s, true)
 		}
+	}
+	// the limit holds per annotation set: the Spec's and every device's set are each within it (one of them exactly
+	// at it), together far beyond; each set has a key of its own and one key that all of them use
+	{
+		s := g.compact("env", 1)
+		at := g.r.Intn(4) - 1
+		set := func(place int) map[string]string {
+			n := 150000 + g.r.Intn(50000)
+			if place == at {
+				n = 262144 - len("big") - 1 - len("k") - len("v")
+			}
+			return map[string]string{fmt.Sprintf("big%d", place+1): strings.Repeat("x", n), "k": "v"}
+		}
+		s.Annotations = set(-1)
+		for i := range s.Devices {
+			s.Devices[i].Annotations = set(i)
+		}
+		g.addSpec("wf/annotation sets each within the size limit, together beyond it", map[string]interface{}{"exactly at the limit": placeName(at), "sets": 4}, s, true)
 	}
 }
 
@@ -981,17 +1114,21 @@ func (g *gen05) boundaries() {
 func (g *gen05) sweep(tier string) {
 	critical := []string{":", ".", "_", "-", "0", "/", "=", "A"}
 	others := []string{" ", "!", "\"", "#", "$", "%", "&", "'", "(", ")", "*", "+", ",", ";", "<", ">", "?", "@", "[", "\\", "]", "^", "`", "{", "|", "}", "~",
-		"z", "9", "é", "K", "\t"}
+		"z", "9", "é", "K", "\t", "\u012d", "\u013a", "\u015f", "\x7f", "\uff0d"}
 	put := func(s string, pos int, ch string) string { // s has 5 bytes
 		switch pos {
 		case 0:
 			return ch + s[1:]
 		case 1:
 			return s[:2] + ch + s[3:]
+		case 3:
+			return s[:1] + ch + s[2:]
+		case 4:
+			return s[:3] + ch + s[4:]
 		}
 		return s[:4] + ch
 	}
-	posName := []string{"first", "middle", "last"}
+	posName := []string{"first", "middle", "last", "second", "second to last"}
 	emit := func(what string, pos int, ch string, kind, name, key string) {
 		s := &specs.Spec{Version: "1.0.0", Kind: kind, Devices: []specs.Device{{Name: name, ContainerEdits: specs.ContainerEdits{Env: []string{"A=b"}}}}}
 		if key != "" {
@@ -1001,9 +1138,14 @@ func (g *gen05) sweep(tier string) {
 	}
 	for _, set := range [][]string{critical, others} {
 		for _, ch := range set {
-			for pos := 0; pos < 3; pos++ {
+			for pos := 0; pos < 5; pos++ {
 				always := &set[0] == &critical[0]
-				take := func() bool { return always || tier == "thorough" || g.r.Chance(0.08) }
+				take := func() bool {
+					if pos >= 3 && tier != "thorough" { // next to the ends: the critical characters, a few of the others
+						return always || g.r.Chance(0.04)
+					}
+					return always || tier == "thorough" || g.r.Chance(0.08)
+				}
 				if take() {
 					emit("vendor", pos, ch, put("vendr", pos, ch)+"/class", "dev", "")
 				}
@@ -1190,19 +1332,26 @@ func (g *gen05) malformed(tier string) {
 			}
 		}
 	}
-	// (d) list elements and map values replaced by values of every JSON type
-	for i := 0; i < nSites; i++ {
-		st0 := sites05(base)[i]
+	// (d) list elements and map values replaced by values of every JSON type; half of them in lists of two or three
+	// elements (two devices), so that the odd element is the first, the last or a middle one of several
+	base2 := g.smallFull(2, 2+g.r.Intn(2))
+	nSites2 := len(sites05(base2))
+	for i := 0; i < nSites+nSites2; i++ {
+		dbase, di, rate := base, i, 0.1
+		if i >= nSites {
+			dbase, di, rate = base2, i-nSites, 0.04
+		}
+		st0 := sites05(dbase)[di]
 		for mi, mm := range st0.obj.O {
 			if mm.V.K != dArr && !(mm.V.K == dObj && mm.K == "annotations") {
 				continue
 			}
 			for vi, v := range wrongValues05() {
-				if !take(0.2) {
+				if !take(rate) || (!quick && i >= nSites && !g.r.Chance(0.3)) {
 					continue
 				}
-				t := base.Clone()
-				st := sites05(t)[i]
+				t := dbase.Clone()
+				st := sites05(t)[di]
 				c := st.obj.O[mi].V
 				where := ""
 				if c.K == dArr {
@@ -1293,6 +1442,144 @@ func (g *gen05) malformed(tier string) {
 		txt := fmt.Sprintf(ytmpl, f[0], f[1], f[2], f[3], f[4])
 		g.addDoc("malformed/YAML scalar spellings", map[string]interface{}{"yaml": txt}, "", txt, true, true)
 	}
+	// (h) YAML-only document forms around a Spec: directives and document markers, comments, a byte order mark, CRLF line
+	// ends, anchors and aliases, block scalars, explicit keys, tags, escapes, non-string keys
+	for _, txt := range []string{
+		"%YAML 1.1\n---\n# a comment\ncdiVersion: !!str 1.0.0\nkind: vendor.com/class # trailing comment\ndevices:\n- name: dev\n  containerEdits:\n    env: [A=b]\n...\n",
+		"\ufeffcdiVersion: 1.0.0\r\nkind: vendor.com/class\r\ndevices:\r\n- name: dev\r\n  containerEdits:\r\n    env: [A=b]\r\n",
+		"cdiVersion: 1.0.0\nkind: vendor.com/class\ncontainerEdits:\n  env: &e [A=b, C=d]\ndevices:\n- name: dev\n  containerEdits:\n    env: *e\n- name: dev2\n  containerEdits: &ce\n    hooks:\n    - {hookName: prestart, path: /bin/h, env: *e}\n- name: dev3\n  containerEdits: *ce\n",
+		"cdiVersion: 1.0.0\nkind: vendor.com/class\ncontainerEdits:\n  env: &e [A=b]\ndevices:\n- name: *e\n  containerEdits:\n    env: *e\n",
+		"cdiVersion: 1.0.0\nkind: vendor.com/class\ncontainerEdits:\n  env: &e [NOEQUALS]\ndevices:\n- name: dev\n  containerEdits:\n    env: [A=b]\n- name: dev2\n  containerEdits:\n    env: *e\n",
+		"cdiVersion: 1.0.0\nkind: vendor.com/class\ndevices:\n- name: |-\n    dev\n  containerEdits:\n    env:\n    - >-\n      A=b\n      c\n",
+		"cdiVersion: 1.0.0\nkind: vendor.com/class\ndevices:\n- name: |\n    dev\n  containerEdits:\n    env: [A=b]\n",
+		"? cdiVersion\n: 1.0.0\n\"kind\": 'vendor.com/class'\n'devices':\n- {name: dev, containerEdits: {env: [A=b,],},}\n",
+		"cdiVersion: 1.0.0\nkind: \"vendor.com\\x2fclass\"\ndevices:\n- name: \"d\\u0065v\"\n  containerEdits:\n    env: ['A=''b']\n    deviceNodes:\n    - path: /dev/x\n      major: !!int \"7\"\n      minor: 0o17\n      fileMode: 0660\n",
+		"cdiVersion: 1.0.0\nkind: vendor.com/class\ndevices:\n- name: !!str 123\n  containerEdits:\n    intelRdt: {enableCMT: !!bool \"yes\", closID: !!str 1.0}\n",
+		"cdiVersion: 1.0.0\nkind: vendor.com/class\n1: x\ndevices:\n- name: dev\n  containerEdits:\n    env: [A=b]\n",
+		"cdiVersion: 1.0.0\nkind: vendor.com/class\ndevices:\n- name: dev\n  containerEdits:\n    env: [A=b]\n    true: x\n",
+		"cdiVersion: 1.0.0\nkind: vendor.com/class\nannotations: {1: a, true: b, 2.5: c}\ndevices:\n- name: dev\n  containerEdits:\n    env: [A=b]\n",
+		"cdiVersion: 1.0.0\nkind: vendor.com/class\ndevices:\n- name: dev\n  containerEdits:\n    env: [A=b]\n    additionalGids: [0x10, 1_0, +5]\n",
+		"{cdiVersion: 1.0.0, kind: vendor.com/class, devices: [{name: dev, containerEdits: {mounts: [{hostPath: /h, containerPath: /c, options: [ro, 1, yes, ~]}]}}]}\n",
+	} {
+		g.addDoc("malformed/YAML-only document forms", map[string]interface{}{"yaml": txt}, "", txt, true, true)
+	}
+	// (i) two members with the same name in one object: at every object of the tree (sampled in quick) and in the annotation
+	// maps; the second member next to the first or apart from it, with the same or another value
+	dbase := g.smallFull(2, 2)
+	nd := len(sites05(dbase))
+	for i := 0; i < nd+2; i++ {
+		if !take(0.45) {
+			continue
+		}
+		t := dbase.Clone()
+		var obj *D
+		where := ""
+		switch {
+		case i < nd:
+			st := sites05(t)[i]
+			obj, where = st.obj, st.path
+		case i == nd:
+			obj, where = t.Get("annotations"), "$.annotations"
+		default:
+			k := g.r.Intn(len(t.Get("devices").A))
+			obj, where = t.Get("devices").A[k].Get("annotations"), fmt.Sprintf("$.devices[%d].annotations", k)
+		}
+		if obj == nil || obj.K != dObj || len(obj.O) == 0 {
+			continue
+		}
+		mi := g.r.Intn(len(obj.O))
+		dup := dmember{obj.O[mi].K, obj.O[mi].V.Clone()}
+		how := "same value"
+		switch g.r.Intn(4) {
+		case 0:
+			dup.V, how = dnull(), "null"
+		case 1:
+			dup.V, how = hx.Pick(g.r, wrongValues05()), "another value"
+		}
+		pos := []int{mi, mi + 1, 0, len(obj.O)}[g.r.Intn(4)]
+		ms := append([]dmember{}, obj.O[:pos]...)
+		ms = append(ms, dup)
+		obj.O = append(ms, obj.O[pos:]...)
+		g.addDupDoc("malformed/duplicate member", map[string]interface{}{"defect": "duplicate member", "at": where, "member": dup.K, "second": how,
+			"positions": []int{pos, mi + map[bool]int{true: 1, false: 0}[pos <= mi]}}, t)
+	}
+}
+
+// yamlBlock05 renders a tree as block-style YAML (strings double-quoted), keeping members as they are, duplicates included.
+func yamlBlock05(d *D, ind string, top bool) string {
+	switch d.K {
+	case dNull:
+		return " null\n"
+	case dBool:
+		if d.B {
+			return " true\n"
+		}
+		return " false\n"
+	case dNum:
+		return " " + d.N + "\n"
+	case dStr:
+		return " " + jsonString(d.S) + "\n"
+	case dArr:
+		if len(d.A) == 0 {
+			return " []\n"
+		}
+		var b strings.Builder
+		b.WriteString("\n")
+		for _, e := range d.A {
+			b.WriteString(ind + "-" + yamlBlock05(e, ind+"  ", false))
+		}
+		return b.String()
+	}
+	if len(d.O) == 0 {
+		return " {}\n"
+	}
+	var b strings.Builder
+	if !top {
+		b.WriteString("\n")
+	}
+	for _, m := range d.O {
+		b.WriteString(ind + jsonString(m.K) + ":" + yamlBlock05(m.V, ind+"  ", false))
+	}
+	return b.String()
+}
+
+// addDupDoc: a document in which some object has two members of the same name, written as JSON text under a .json name,
+// the same text under a .yaml name (flow style) and as block-style YAML; the case carries the tree as written (both
+// members kept): a generic decoding of the bytes would have dropped one of them.
+func (g *gen05) addDupDoc(class string, info map[string]interface{}, tree *D) {
+	g.n++
+	dir := filepath.Join(g.scratch, fmt.Sprintf("dup%05d", g.n))
+	defer os.RemoveAll(dir)
+	jsonText := tree.JSON()
+	block := yamlBlock05(tree, "", true)
+	// the block rendering must denote the same document as the JSON text (as far as a generic decoding tells)
+	a, errA := yaml.YAMLToJSON([]byte(jsonText))
+	b, errB := yaml.YAMLToJSON([]byte(block))
+	texts := []struct{ sub, file, text string }{{"json", "doc.json", jsonText}, {"flow", "doc.yaml", jsonText}}
+	if errA == nil && errB == nil && string(a) == string(b) {
+		texts = append(texts, struct{ sub, file, text string }{"block", "doc.yaml", block})
+	} else {
+		g.stats["dup-block-rendering-differs"]++
+	}
+	var obs []int
+	observed := map[string]string{}
+	var pars []string
+	for _, tx := range texts {
+		d := filepath.Join(dir, tx.sub)
+		_ = os.MkdirAll(d, 0o755)
+		path := filepath.Join(d, tx.file)
+		_ = os.WriteFile(path, []byte(tx.text), 0o644)
+		o1, o2 := readRoute05(path), refreshRoute05(d, path)
+		obs = append(obs, o1, o2)
+		observed[tx.sub+":ReadSpec"], observed[tx.sub+":Refresh"] = obsNames05[o1], obsNames05[o2]
+		pars = append(pars, parsedTerm05([]byte(tx.text)))
+	}
+	desc := map[string]interface{}{"encoding": "json+yaml", "document": trunc05(jsonText, 700), "observed": observed}
+	for k, x := range info {
+		desc[k] = x
+	}
+	g.s.Add(hx.Case{Term: chunkLiterals(hx.C("CDoc", tree.Coq(), obsList(obs), hx.L(pars))), Desc: desc, Class: class, Nontrivial: true})
+	g.stats["verdict:"+obsNames05[obs[0]]]++
 }
 
 // ------------------------------------------------------------------------------------------------
@@ -1312,7 +1599,10 @@ func genC05(r *hx.R, tier string, scratch string) (*hx.Suite, error) {
 			"some of these always, the rest sampled in quick). Malformed stream " +
 			"(documents only): unknown member at every object of the tree, case variants of member names (incl. U+212A / U+017F), every member value / list " +
 			"element / map value replaced by a value of every JSON type, integer members around the limits of their Go types, top-level non-objects and null " +
-			"placements, YAML-only scalar spellings. Non-trivial: everything except nothing (every case has optional fields or a defect).",
+			"placements, YAML-only scalar spellings and document forms (directives, comments, BOM, CRLF, anchors/aliases, block scalars, tags, non-string keys), " +
+			"two members of one name in any object of the tree (JSON, flow and block YAML). The defects stand in varying surroundings: 1-6 devices, lists of 1-5 " +
+			"elements, only the targeted list present or every optional member; bad values include runes whose low byte is a legal character and invalid UTF-8. " +
+			"Non-trivial: everything except nothing (every case has optional fields or a defect).",
 	}
 	g := &gen05{r: r, s: s, scratch: scratch, stats: map[string]int{}}
 	// well-formed Specs, pairwise coverage of the optional fields
@@ -1376,7 +1666,7 @@ func (g *gen05) constants() {
 		sp.Devices[0].ContainerEdits.Hooks = []*specs.Hook{{HookName: h, Path: "/bin/h"}}
 		g.addSpec("constants/hook stage", map[string]interface{}{"hookName": h}, sp, true)
 	}
-	for _, t := range append(append([]string{}, c.NodeTypes...), "f", "B", "cc") {
+	for _, t := range append(append([]string{}, c.NodeTypes...), "f", "B", "cc", "\u0162", "\u0163") {
 		sp := base()
 		sp.Devices[0].ContainerEdits.DeviceNodes = []*specs.DeviceNode{{Path: "/dev/x", Type: t}}
 		g.addSpec("constants/node type", map[string]interface{}{"type": t}, sp, true)
@@ -1387,7 +1677,8 @@ func (g *gen05) constants() {
 		sp.Devices[0].ContainerEdits.DeviceNodes = []*specs.DeviceNode{{Path: "/dev/x", Type: t, Permissions: "rwx"}}
 		g.addSpec("constants/bad permissions per node type", map[string]interface{}{"type": t, "permissions": "rwx"}, sp, true)
 	}
-	for _, p := range append(append([]string{}, c.PermChars...), "x", "R", "rwmx") {
+	// (the last three: runes whose low byte is a permission character)
+	for _, p := range append(append([]string{}, c.PermChars...), "x", "R", "rwmx", "\u0172", "\u0177", "w\u016d") {
 		sp := base()
 		sp.Devices[0].ContainerEdits.DeviceNodes = []*specs.DeviceNode{{Path: "/dev/x", Permissions: "r" + p}}
 		g.addSpec("constants/permission character", map[string]interface{}{"permissions": "r" + p}, sp, true)
